@@ -166,6 +166,40 @@ func c14Process(w c14Work, variant uint64) (digest uint64, perr string) {
 				copy(buf[4:8], []byte{0, 0, 0, 0})
 			}
 			add(buf[:n])
+		case "ctor-decode":
+			// a constructor-made value is used as the receiver of a decode (of bytes whose padding and reserved parts
+			// are not zero), then a fresh value of the same kind is built and encoded: what it encodes to must not
+			// depend on what this or any other goroutine decoded
+			fill := byte(0x80 | w.aux&0x7f)
+			scribble := func(b []byte) []byte {
+				o := append([]byte(nil), b...)
+				for i := 4; i < len(o); i++ {
+					if o[i] == 0 {
+						o[i] = fill
+					}
+				}
+				return o
+			}
+			kinds := gen.ActionKinds()
+			k := kinds[int(w.aux>>8)%len(kinds)]
+			if a, err := lib.BuildAction(gen.ActionOfKind(prng.New(w.aux), k, gen.ActOpt{})); err == nil {
+				if b, err := a.MarshalBinary(); err == nil && len(b) >= 8 {
+					if a2, err := lib.BuildAction(gen.ActionOfKind(prng.New(w.aux), k, gen.ActOpt{})); err == nil {
+						a2.UnmarshalBinary(scribble(b))
+					}
+					if a3, err := lib.BuildAction(gen.ActionOfKind(prng.New(w.aux), k, gen.ActOpt{})); err == nil {
+						b3, _ := a3.MarshalBinary()
+						add(b3)
+					}
+				}
+			}
+			e := ctorTable[int(w.aux>>16)%len(ctorTable)]
+			mk := ctorByName(e.name)
+			if b, err := mk().MarshalBinary(); err == nil && len(b) >= 4 {
+				mk().UnmarshalBinary(scribble(b))
+				b3, _ := mk().MarshalBinary()
+				add(b3)
+			}
 		case "registry":
 			names := []string{"NXM_NX_REG0", "NXM_NX_REG7", "NXM_NX_CT_MARK", "OXM_OF_METADATA", "NXM_NX_TUN_ID", "nxm_nx_reg3", "NXM_NX_XXREG1", "NXM_NX_CT_LABEL", "OXM_OF_ETH_DST"}
 			// the letter case of the spelling differs between the sequential and the concurrent pass (and between
@@ -409,7 +443,11 @@ func c14Eval(c *fw.Ctx, data any) {
 				work = append(work, c14Work{kind: "dhcp", aux: uint64(k)})
 			}
 		default:
-			work = append(work, c14Work{kind: "registry", aux: r.U64()})
+			if k%16 == 15 {
+				work = append(work, c14Work{kind: "ctor-decode", aux: r.U64()})
+			} else {
+				work = append(work, c14Work{kind: "registry", aux: r.U64()})
+			}
 		}
 	}
 	seq := make([]uint64, len(work))
